@@ -639,7 +639,101 @@ def Table.env (T : Table) : Env :=
 structure DTab where
   name : String
   sigs : List Sig
+  /-- qualified name of the rule function registered for each signature -/
+  rules : List String
   order : List Nat
   ambig : List (Nat × Nat)
+
+/-! ## Overlap of patterns (may one argument type match both?) — conservative, used to find
+    ambiguities that `multipledispatch.conflict.consistent` (slot-wise subclass comparability) misses -/
+
+mutual
+def tsize : Ty → Nat
+  | .tup xs => 1 + tsizeL xs
+  | .tupV x => 1 + tsize x
+  | .fs x => 1 + tsize x
+  | .union xs => 1 + tsizeL xs
+  | .fn _ args => 1 + tsizeL args
+  | _ => 1
+def tsizeL : List Ty → Nat
+  | [] => 0
+  | x :: xs => tsize x + tsizeL xs
+end
+
+section Overlap
+variable (E : Env)
+
+def comparable (a b : Nat) : Bool := E.L a b || E.L b a
+
+def all2o (r : Ty → Ty → Bool) : List Ty → List Ty → Bool
+  | [], [] => true
+  | x :: xs, y :: ys => r x y && all2o r xs ys
+  | _, _ => false
+
+/-- `true` unless the two patterns are certainly disjoint on argument types (first argument: fuel). -/
+def overlapF : Nat → Ty → Ty → Bool
+  | 0, _, _ => true
+  | n + 1, a, b =>
+    match a, b with
+    | .any, _ => true
+    | _, .any => true
+    | .union xs, b => xs.any (fun x => overlapF n x b)
+    | a, .union ys => ys.any (fun y => overlapF n a y)
+    | .cls k1, .cls k2 => comparable E k1 k2
+    | .cls k, .fn kb _ => comparable E k kb
+    | .fn ka _, .cls k => comparable E ka k
+    | .cls k, .tupB | .cls k, .tup _ | .cls k, .tupV _ => comparable E k E.kTuple
+    | .tupB, .cls k | .tup _, .cls k | .tupV _, .cls k => comparable E k E.kTuple
+    | .cls k, .fsB | .cls k, .fs _ => comparable E k E.kFs
+    | .fsB, .cls k | .fs _, .cls k => comparable E k E.kFs
+    | .tup xs, .tup ys => all2o (overlapF n) xs ys
+    | .tup xs, .tupV y => xs.all (fun x => overlapF n x y)
+    | .tupV x, .tup ys => ys.all (fun y => overlapF n x y)
+    | .tupB, .tupB | .tupB, .tup _ | .tupB, .tupV _ | .tup _, .tupB | .tupV _, .tupB | .tupV _, .tupV _ => true
+    | .fsB, .fsB | .fsB, .fs _ | .fs _, .fsB | .fs _, .fs _ => true      -- the empty frozenset
+    | .fn ka as, .fn kb bs =>
+      comparable E ka kb && (as.isEmpty || bs.isEmpty || all2o (overlapF n) as bs)
+    | _, _ => false
+
+def overlap (a b : Ty) : Bool := overlapF E (tsize a + tsize b) a b
+
+def Slot.alts : Slot → List Alt
+  | .one a => [a]
+  | .var as => as
+
+def slotOverlap (a b : Slot) : Bool :=
+  a.alts.any fun x => b.alts.any fun y => overlap E x.ty y.ty
+
+/-- may one tuple of argument types be accepted by both signatures (first argument: fuel) -/
+def sigOverlapF : Nat → Sig → Sig → Bool
+  | 0, _, _ => true
+  | _ + 1, [], [] => true
+  | _ + 1, [], [b] => b.isVar
+  | _ + 1, [a], [] => a.isVar
+  | _ + 1, [], _ => false
+  | _ + 1, _, [] => false
+  | n + 1, a :: as, b :: bs =>
+    slotOverlap E a b &&
+      (if a.isVar && b.isVar then true
+       else if a.isVar then sigOverlapF n (a :: as) bs
+       else if b.isVar then sigOverlapF n as (b :: bs)
+       else sigOverlapF n as bs)
+
+def sigOverlap (a b : Sig) : Bool := sigOverlapF E (a.length + b.length + 1) a b
+
+/-- pairs `(i, j)`, `i < j`, of overlapping signatures neither of which supercedes the other and that
+    no third signature refines — whether or not multipledispatch noticed. -/
+def hiddenAmbiguities (sigs : List Sig) : List (Nat × Nat) :=
+  let n := sigs.length
+  (List.range n).flatMap fun i =>
+    ((List.range n).filter fun j =>
+      i < j &&
+      match sigs[i]?, sigs[j]? with
+      | some a, some b =>
+        sigOverlap E a b && !(supercedes E a b || supercedes E b a) &&
+          !(sigs.any fun c => supercedes E c a && supercedes E c b)
+      | _, _ => false).map fun j => (i, j)
+
+end Overlap
 
 end FV.C16
